@@ -84,11 +84,13 @@ Definition is_floor (tol x : T) (n : Z) : bool :=
   o_leb O (o_sub O (o_ofZ O n) tol) x && o_ltb O x (o_add O (o_ofZ O (n + 1)) tol).
 
 (* np.linspace(start, stop, num, endpoint): y_i = i * step + start, step =
-   (stop - start) / div, div = num - 1 or num; with endpoint the last entry is
-   set to stop *)
+   (stop - start) / div, div = num - 1 or num (div = 0, i.e. one point with
+   endpoint: y_i = i * (stop - start) + start); with endpoint and num > 1 the last
+   entry is set to stop *)
 Definition linspace (start stop : T) (num : nat) (endpoint : bool) : list T :=
   let div := if endpoint then (num - 1)%nat else num in
-  let step := o_div O (o_sub O stop start) (ofN div) in
+  let step := if (div =? 0)%nat then o_sub O stop start
+              else o_div O (o_sub O stop start) (ofN div) in
   let ys := map (fun i => o_add O (o_mul O (ofN i) step) start) (seq 0 num) in
   if endpoint && (1 <? num)%nat then removelast ys ++ [stop] else ys.
 
